@@ -8,7 +8,7 @@
   `AtomGrid.interpolate` is a given component (C09): an abstract function of the atomic grid and the
   values, returning a callable of `(points, deriv, deriv_spherical, only_radial_derivs)`.
 -/
-import GridVerif.Props.C07
+import GridVerif.Props.C07.GenInit
 
 namespace GridVerif.C07
 open GridVerif.MolGrid List
